@@ -59,6 +59,9 @@ def cases(tier, seed):
             cfg["maxcor"] = int(rng.integers(11, 31))
         if rng.random() < 0.2:
             cfg["scaler"] = float(np.exp(rng.uniform(np.log(1e-2), np.log(1e2))))
+        e2e.vary_rare_parameters(rng, cfg)
+        if rng.random() < 0.1:
+            cfg["max_steplength"] = float(gen.pick(rng, [0.1, 1.0, 5.0]))
         if cfg["jac"] == "callable" and i % 4 == 1:
             cfg["reuse_grad_buffer"] = True  # the user's gradient fills and returns one preallocated array; results are audited at the end
         if i % 3 == 2:
